@@ -32,21 +32,38 @@ def apply(ctx, W):
         raise rules.WeaveError("SemanticState::build: no-progress check not found")
     rules.outline(ctx, ss, b, ifs[0], ifs[0], "build__no_progress", "to_resolve: Vec<ItemPath>", "to_resolve", outs=[], types=[], kind="try", mode="T",
                   method="&self", tags=("C10", "C12"))
-    u = rules.outline(ctx, ss, b, st, st, "build__resolve", "", "", outs=[], types=[], kind="try", method="&mut self", tags=U,
+    # ---- the tail: `for module in self.modules.values_mut() { module.resolve_extern_values(&mut self.type_registry)?; }`
+    # vstd has no model of `HashMap::values_mut`; the loop becomes a *trusted* segment whose contract says what a loop
+    # over all values does given the verified contract of Module::resolve_extern_values (g25_externs)
+    vm = ss.method_calls(b, "values_mut")
+    if len(vm) != 1:
+        raise rules.WeaveError("SemanticState::build: expected one `values_mut()` loop")
+    st_ext = ss.top_stmt_of(b, vm[0])
+    if "resolve_extern_values" not in ss.text(st_ext["span"]) or not ss.text(st_ext["span"]).lstrip().startswith("for "):
+        raise rules.WeaveError("SemanticState::build: the extern-value loop has an unexpected shape")
+    rules.outline(ctx, ss, b, st_ext, st_ext, "build__externs", "", "", outs=[], types=[], kind="try", mode="T", method="&mut self", recv="this__",
+                  call_pre="let ghost mods_mid__ = this__.modules@;\n        ", tags=("C10", "C15"),
+                  requires=["reg_wf(&old(self).type_registry)"],
+                  ensures=[
+                      ("final(self).type_registry == old(self).type_registry", ("C10",), "externs-keep-registry"),
+                      ("final(self).modules@.dom() == old(self).modules@.dom()", ("C10", "C14"), "externs-keep-modules"),
+                      ("res is Ok ==> modules_externs_resolved(&old(self).type_registry, old(self).modules@, final(self).modules@)", ("C10", "C15"), "externs-resolved"),
+                  ])
+    u = rules.outline(ctx, ss, b, st, st, "build__resolve", "", "", outs=[], types=[], kind="try", method="&mut self", tags=U, recv="this__",
         attrs=["verifier::exec_allows_no_decreases_clause"],
         requires=["reg_wf(&old(self).type_registry)"],
         ensures=[
             ("res is Ok ==> all_resolved(&final(self).type_registry)", ("C10",), "no-type-left-out"),
             ("reg_wf(&final(self).type_registry)", ("C10",), "keeps-reg-wf"),
             ("keys_kept(&old(self).type_registry, &final(self).type_registry)", ("C10", "C14"), "keys-kept"),
-            ("final(self).modules@.dom() == old(self).modules@.dom()", ("C10",), "keeps-modules"),
+            ("modules_frame(old(self).modules@, final(self).modules@)", ("C05", "C10", "C14", "C15"), "keeps-modules"),
             ("final(self).type_registry.pointer_size == old(self).type_registry.pointer_size", ("C10",), "keeps-pointer-size"),
         ])
     rules.self_reborrow(ss, st["span"])
     common = [
         ("reg_wf(&self.type_registry)", ("C10",)),
         ("keys_kept(&old(self).type_registry, &self.type_registry)", ("C10", "C14")),
-        ("self.modules@.dom() == old(self).modules@.dom()", ("C10",)),
+        ("modules_frame(old(self).modules@, self.modules@)", ("C05", "C10", "C14", "C15")),
         ("self.type_registry.pointer_size == old(self).type_registry.pointer_size", ("C10",)),
     ]
     rules.loop_spec(ctx, ss, u, lp, tags=("C10",), invariants=common, ensures=[("all_resolved(&self.type_registry)", ("C10",))])
@@ -72,3 +89,32 @@ def apply(ctx, W):
                         implies self.type_registry.types@[p].state is Resolved by { assert(!to_resolve@.contains(p)); }
                 }
             }""")
+
+    # ---- the host: `pub fn build(mut self)`.  R-mut-self, then the three remaining statements are verified:
+    # the resolution loop (segment), the extern values (trusted segment), the construction of the resolved state
+    tail = ss.top_stmts(b)[-1]
+    if "ResolvedSemanticState" not in ss.text(tail["span"]):
+        raise rules.WeaveError("SemanticState::build: does not end in the construction of the resolved state")
+    rules.mut_self_to_local(ss, b, "this__", [tail])
+    fn_into_verus(ctx, ss, "SemanticState::build", ret="res", tags=("C10", "C15", "C14", "C17"), no_fallback=True,
+        requires=["reg_wf(&self.type_registry)"],
+        ensures=[
+            ("res is Ok ==> all_resolved(&res->Ok_0.type_registry)", ("C10",), "build-no-type-left-out"),
+            ("res is Ok ==> keys_kept(&self.type_registry, &res->Ok_0.type_registry)", ("C10", "C14"), "build-keeps-items"),
+            ("res is Ok ==> res->Ok_0.type_registry.pointer_size == self.type_registry.pointer_size", ("C10",), "build-keeps-pointer-size"),
+            ("res is Ok ==> modules_defs_kept(self.modules@, res->Ok_0.modules@)", ("C14", "C10"), "build-module-definitions"),
+            ("res is Ok ==> modules_externs_built(&res->Ok_0.type_registry, self.modules@, res->Ok_0.modules@)", ("C10", "C15"), "build-module-extern-values"),
+            ("res is Ok ==> modules_backends_kept(self.modules@, res->Ok_0.modules@)", ("C14",), "build-module-backends"),
+            ("res is Ok ==> modules_doc_kept(self.modules@, res->Ok_0.modules@)", ("C17",), "build-module-doc"),
+        ])
+    ghost(ctx, ss, "semantic::semantic_state::SemanticState::build", tail["span"][0], """proof {
+            assert forall|k: ItemPath| #![trigger this__.modules@[k]] self.modules@.contains_key(k)
+                implies self.modules@[k].definition_paths@.subset_of(this__.modules@[k].definition_paths@)
+                    && this__.modules@[k].backends == self.modules@[k].backends && this__.modules@[k].doc == self.modules@[k].doc
+                    && extern_values_resolved(&this__.type_registry, module_scope(&self.modules@[k]), self.modules@[k].extern_values@,
+                            this__.modules@[k].extern_values@, self.modules@[k].extern_values@.len() as int) by {
+                let mid = mods_mid__[k];
+                assert(module_kept(self.modules@[k], mid));
+                assert(module_externs_resolved(&this__.type_registry, mid, this__.modules@[k]));
+            }
+        }""")
